@@ -243,7 +243,10 @@ Definition discover (d : disc) (iss : option bool) : option err :=
     the token / identity payload of the session value) found: nothing, an entry,
     or — generic only, which stores any 2xx body — an entry that is not JSON.
     With an entry the endpoint is not contacted; what the entry holds is checked as a
-    fresh answer would be (introspection: deaddf0, generic session lifespan: abc25e7). *)
+    fresh answer would be (introspection: deaddf0, generic session lifespan: abc25e7).
+    jwt: a cached key that fails the configured validation is ignored and the endpoint
+    contacted (d20d7cd) - not reachable here, certificates / trust store are not
+    generated (level_note). *)
 Inductive lookup := LMiss | LHit | LHitGarbage.
 
 Definition is_hit (h : lookup) : bool := match h with LMiss => false | _ => true end.
